@@ -17,7 +17,10 @@ RULES["C02"] = (
     "pool and on the whole pool at the end: hash(x) == hash_fast(x.tobytes('C')). Plus an enumerated table "
     "route x write target (root, view, view of view) x which member was hashed before. Container level: the same "
     "on mesh.vertices/faces, path.vertices, colour arrays with hash(mesh)/hash(path)/hash(scene)/visual hash compared "
-    "with a fresh object built from the current arrays. Non-trivial: a hash read leaves a flag clean and a later "
+    "with a fresh object built from the current arrays; mesh programs interleave array-level hash reads (hash(mesh.vertices)) "
+    "between an edit and the container hash, re-assign the same array object through the property setter "
+    "(m.vertices = m.vertices, m.vertices += x) and go on writing through the handle taken before, and build further "
+    "holders (Trimesh / PointCloud) on the same array objects, all of which must agree with fresh objects. Non-trivial: a hash read leaves a flag clean and a later "
     "step changes the bytes of that member; distinct by case."
 )
 ASSUMPTIONS["C02"] = [
@@ -644,6 +647,12 @@ def b_mesh(case, ctx):
         raise Violation(v.sig + "|unlocalised", v.msg)
 
 
+def _holder_fresh_hash(o):
+    if isinstance(o, trimesh.Trimesh):
+        return _fresh_mesh_hash(o)
+    return trimesh.PointCloud(np.array(o.vertices, dtype=np.float64).copy()).__hash__()
+
+
 def _mesh(case, ctx, full):
     with np.errstate(all="ignore"):
         rs0 = np.random.RandomState(case["seed"])
@@ -652,26 +661,76 @@ def _mesh(case, ctx, full):
         F = rs0.randint(0, nv, (nf, 3)).astype(np.int64)
         m = trimesh.Trimesh(V.copy(), F.copy(), process=False)
         held = {}
+        others = []  # further holders built on the very same array objects
         nontrivial = False
         cls = []
+
+        def check_all(si, where):
+            for k, o in enumerate([m] + others):
+                h = o.__hash__()
+                want = _holder_fresh_hash(o)
+                who = "mesh" if k == 0 else f"sharing_{type(o).__name__}"
+                extra = "" if k == 0 else f"|holder={type(o).__name__}"
+                check(h == want, f"C02.mesh|stale|after={held.get('last', 'none')}{extra}", f"{where} {si}: hash({who}) {h} != fresh {want}; array-level reads since the edit: {held.get('array_reads', 0)}")
+
         for si, step in enumerate(case["steps"]):
             op = step[0]
             arr = m.vertices if step[1] == "v" else m.faces
             if op == "hash":
-                h = m.__hash__()
-                want = _fresh_mesh_hash(m)
-                check(h == want, f"C02.mesh|stale|after={held.get('last', 'none')}", f"step {si}: hash(mesh) {h} != fresh mesh {want}")
+                level = step[2] if len(step) > 2 else "mesh"
+                if level == "array":
+                    # reading the hash of one member must not hide the edit from the container
+                    got, want = arr.__hash__(), fresh_hash(arr)
+                    check(got == want, f"C02.mesh|array_stale|after={held.get('last', 'none')}", f"step {si}: hash(array) {got} != fresh {want}")
+                    if not held.get("clean", True):
+                        held["array_reads"] = held.get("array_reads", 0) + 1
+                        cls.append("mesh:array_hash_read_between_edit_and_container_hash")
+                    continue
+                if level == "store":
+                    got = m._data.__hash__()
+                    want = trimesh.Trimesh(np.array(m.vertices).copy(), np.array(m.faces).copy(), process=False)._data.__hash__()
+                    check(got == want, f"C02.mesh|store_stale|after={held.get('last', 'none')}", f"step {si}: hash(DataStore) {got} != fresh {want}")
+                check_all(si, "step")
                 held["clean"] = True
+                held["array_reads"] = 0
             elif op == "hold":
                 # keep a view of the stored array across later steps
                 v = mk_view(arr, step[2], step[3])
                 if v is not None and isinstance(v, np.ndarray) and v.ndim and np.shares_memory(v, arr):
                     held["view"] = v
                     held["view_of"] = step[1]
+            elif op == "reassign":
+                # the same array object goes through the property setter again; the handle taken before stays in use
+                held["handle"] = arr
+                how = step[2]
+                if step[1] == "v":
+                    if how == "iadd":
+                        m.vertices += 0.5
+                    else:
+                        m.vertices = arr
+                else:
+                    if how == "iadd":
+                        m.faces += 1
+                    else:
+                        m.faces = arr
+                if how == "iadd":
+                    held["last"] = "reassign_iadd:stored"
+                    held["clean"] = False
+                cls.append(f"mesh:reassign:{how}")
+            elif op == "share":
+                if len(others) < 2:
+                    if step[2] == "trimesh":
+                        others.append(trimesh.Trimesh(vertices=m.vertices, faces=m.faces, process=False))
+                    else:
+                        others.append(trimesh.PointCloud(m.vertices))
+                    cls.append(f"mesh:share:{step[2]}")
             elif op == "mut":
                 tgt = arr
                 tname = "stored"
-                if step[4] and "view" in held and held["view"].size and held["view"].flags.writeable:
+                if step[4] == 2 and "handle" in held and held["handle"].dtype == arr.dtype and held["handle"].flags.writeable:
+                    tgt = held["handle"]
+                    tname = "old_handle"
+                elif step[4] == 1 and "view" in held and held["view"].size and held["view"].flags.writeable:
                     tgt = held["view"]
                     tname = "held_view"
                 if step[1] == "f" and tgt.dtype.kind != "i":
@@ -687,22 +746,23 @@ def _mesh(case, ctx, full):
                 if (m.vertices.tobytes(), m.faces.tobytes()) != b4 and held.get("clean"):
                     nontrivial = True
                     cls.append(f"mesh_route:{step[2]}:{tname}")
+                    if others:
+                        cls.append("mesh:edit_with_sharing_holder")
+                    if tname == "old_handle":
+                        cls.append("mesh:edit_through_handle_taken_before_reassign")
                 held["last"] = f"{step[2]}:{tname}"
                 held["clean"] = False
                 if full:
-                    h = m.__hash__()
-                    want = _fresh_mesh_hash(m)
-                    check(h == want, f"C02.mesh|stale|after={held['last']}", f"step {si}: hash(mesh) {h} != fresh mesh {want}")
+                    check_all(si, "step")
+        check_all("end", "at")
         h = m.__hash__()
-        want = _fresh_mesh_hash(m)
-        check(h == want, f"C02.mesh|stale|after={held.get('last', 'none')}", f"end: hash(mesh) {h} != fresh mesh {want}")
         # equal arrays hash equal; hash is stable under read-only use
         m2 = trimesh.Trimesh(m.vertices.copy(), m.faces.copy(), process=False)
         check(m2.__hash__() == h, "C02.mesh|equal_arrays_hash_equal", "")
         # read-only use (faces may hold arbitrary integers after the edits, so nothing that indexes with them)
         _ = m.copy(), m.vertices.sum(), m.vertices + 1, m.faces.max() if len(m.faces) else 0, m.vertices[1:].copy()
         check(m.__hash__() == h, "C02.mesh|readonly_changes_hash", "")
-        ctx.note(nontrivial=nontrivial, cls=cls[:4] or ["mesh:no_effective_mutation"])
+        ctx.note(nontrivial=nontrivial, cls=sorted(set(cls))[:8] or ["mesh:no_effective_mutation"])
 
 
 @body("C02.containers")
@@ -713,7 +773,7 @@ def b_containers(case, ctx):
         rs = np.random.RandomState(case["seed"])
         which = case["which"]
         via_view = case["via_view"]
-        ctx.note(nontrivial=True, cls=f"container:{which}:{'view' if via_view else 'stored'}")
+        ctx.note(nontrivial=True, cls=[f"container:{which}:{'view' if via_view else 'stored'}"] + (["container:array_hash_first"] if case.get("array_first") else []))
 
         def apply(arr):
             tgt = arr
@@ -735,6 +795,8 @@ def b_containers(case, ctx):
                 if p.vertices.tobytes() == b4:
                     return
             changed = p.vertices.tobytes() != b4
+            if case.get("array_first"):
+                p.vertices.__hash__()
             h1 = p.__hash__()
             check((h1 != h0) == changed, f"C02.containers|path|route={route}|view={via_view}", f"bytes changed={changed} but hash changed={h1 != h0}")
         elif which == "scene":
@@ -751,6 +813,8 @@ def b_containers(case, ctx):
                 if m.vertices.tobytes() == b4:
                     return
             changed = m.vertices.tobytes() != b4
+            if case.get("array_first"):
+                m.vertices.__hash__()
             h1 = s.__hash__()
             check((h1 != h0) == changed, f"C02.containers|scene|route={route}|view={via_view}", f"bytes changed={changed} but hash changed={h1 != h0}")
         elif which in ("face_colors", "vertex_colors"):
@@ -775,6 +839,8 @@ def b_containers(case, ctx):
                     return
             arr2 = m.visual.face_colors if which == "face_colors" else m.visual.vertex_colors
             changed = arr2.tobytes() != b4
+            if case.get("array_first") and hasattr(arr2, "__hash__"):
+                arr2.__hash__()
             h1 = m.visual.__hash__()
             check((h1 != h0) == changed, f"C02.containers|{which}|route={route}|view={via_view}", f"bytes changed={changed} but hash changed={h1 != h0}")
 
@@ -807,14 +873,18 @@ def program(draw):
 def mesh_program(draw):
     steps = []
     for _ in range(draw(st.integers(2, 10))):
-        t = draw(st.sampled_from(["hash", "hold", "mut", "mut"]))
+        t = draw(st.sampled_from(["hash", "hash", "hold", "mut", "mut", "mut", "reassign", "share"]))
         w = draw(st.sampled_from(["v", "f"]))
         if t == "hash":
-            steps.append(["hash", w])
+            steps.append(["hash", w, draw(st.sampled_from(["mesh", "mesh", "array", "array", "store"]))])
         elif t == "hold":
             steps.append(["hold", w, draw(st.sampled_from(["rows", "col", "row", "T", "reshape", "ravel", "ellipsis", "rev"])), draw(st.integers(0, 1000))])
+        elif t == "reassign":
+            steps.append(["reassign", w, draw(st.sampled_from(["same", "iadd"]))])
+        elif t == "share":
+            steps.append(["share", w, draw(st.sampled_from(["trimesh", "pointcloud"]))])
         else:
-            steps.append(["mut", w, draw(st.sampled_from(ROUTE_NAMES)), draw(st.integers(0, 10**6)), draw(st.booleans())])
+            steps.append(["mut", w, draw(st.sampled_from(ROUTE_NAMES)), draw(st.integers(0, 10**6)), draw(st.sampled_from([0, 0, 1, 2]))])
     return {"seed": draw(st.integers(0, 10**6)), "steps": steps}
 
 
@@ -835,7 +905,8 @@ def container_cases():
         for route in ROUTE_NAMES:
             for via in (False, True):
                 for seed in (1, 2):
-                    yield {"which": which, "route": route, "via_view": via, "seed": seed}
+                    # seed 2: the edited array's own hash is read before the container's
+                    yield {"which": which, "route": route, "via_view": via, "seed": seed, "array_first": seed == 2}
 
 
 @subcheck("C02", "program", shards={"quick": 6, "thorough": 16})
@@ -858,4 +929,5 @@ def s_containers(ctx):
     ctx.enumerate("C02.containers", container_cases(), label="container_x_route_x_view")
 
 
-REQUIRED_CLASSES["C02"] = ["table:root", "table:view", "table:viewview", "target:view", "target:root"]
+REQUIRED_CLASSES["C02"] = ["table:root", "table:view", "table:viewview", "target:view", "target:root", "mesh:array_hash_read_between_edit_and_container_hash",
+                           "mesh:edit_with_sharing_holder", "mesh:edit_through_handle_taken_before_reassign", "mesh:reassign:iadd"]
